@@ -15,6 +15,8 @@ Decided:
     same loop iteration, never the loop-initial or previous cursor value.
  E5 wrap-safe indices (H-ctr): the free-running ring indices are never order-compared raw and never combined with
     non-wrapping arithmetic anywhere in the queue code.
+ E7 free-descriptor query: available_desc is folded over (in-use count, indirect flag, SIZE): it reports 0 exactly
+    when every descriptor is in use and, for queues without indirect descriptors, exactly SIZE - in-use.
 Not decided: exactly-once over histories (needs the free-list heap invariant).
 """
 from .common import *
@@ -25,7 +27,7 @@ EXPLANATION = ("add and pop_used are path-enumerated (loop-containing helpers ke
                "paths are checked effect-free; the capacity predicate is folded over all (SIZE<=16, in-use, #inputs, #outputs, "
                "indirect) combinations against the specification predicate; the consumption path is checked for order and "
                "provenance; free-running indices are checked for wrapping-only arithmetic in every queue function.")
-FLOORS = {'add_paths': 6, 'pop_paths': 3, 'capacity_rows': 1000, 'counter_ops': 4}
+FLOORS = {'free_queries': 1, 'add_paths': 6, 'pop_paths': 3, 'capacity_rows': 1000, 'counter_ops': 4}
 
 
 def counters_rule(F, R, rule):
@@ -66,6 +68,7 @@ def run(F, R):
     e4_accounting(F, R, M, add_id, pop_id)
     e5_counters(F, R, M, tfield, lfield)
     R.count('relink_sites', e6_relink(F, R, M, pop_id))
+    e7_available(F, R, M, add_id)
 
 
 def last_used_field(F, M, can_pop_id):
@@ -376,6 +379,71 @@ def e5_counters(F, R, M, tfield, lfield, rule='E5'):
                     nops += 1
                     R.held(rule, '%s:%s' % (b['id'], fn.rsplit('::', 1)[1]), site(sg, n), 'wrapping arithmetic on index')
     R.count('counter_ops', nops)
+
+
+def e7_available(F, R, M, add_id):
+    cands = [b for b in queue_entry_points(F, M) if b.get('pub') and b.get('sig', '').endswith('-> usize') and b['arg_count'] == 1 and not has_loop(b)]
+    # the query that reads the in-use counter
+    sgadd = supergraph(F, add_id, opaque=loop_opaque, tag='loopopaque')
+    try:
+        fields = num_used_field(PathEnum(sgadd).run())
+    except PathLimit:
+        fields = {}
+    bools = [f['name'] for f in F.adts[M.queue_adt]['variants'][0]['fields'] if f['ty'] == 'bool']
+    ctr = [f for f in fields if f not in bools]
+    if len(ctr) != 1:
+        return
+    ctr = ctr[0]
+    n = 0
+    for b in cands:
+        sg = supergraph(F, b['id'])
+        try:
+            paths = PathEnum(sg).run()
+        except PathLimit:
+            continue
+        if not any(ctr in fmt(c[0]) or (p.ret is not None and ctr in fmt(p.ret)) for p in paths for c in (p.conds or [(('x',),)])):
+            continue
+        n += 1
+        where = fn_site(F, b['id'])
+        bad = None
+        rows = 0
+        for SZ in (1, 2, 4, 8):
+            for used in range(0, SZ + 1):
+                for ind in (0, 1):
+                    def leaf(t, used=used, ind=ind):
+                        if t[0] in ('load0', 'load') and t[1][2] and t[1][2][-1][0] == 'f' and t[1][2][-1][2] == M.queue_adt:
+                            if t[1][2][-1][1] == ctr:
+                                return used
+                            if t[1][2][-1][1] in bools:
+                                return ind if 'indirect' in t[1][2][-1][1] or len(bools) == 1 else 0
+                        raise Unfoldable(fmt(t)[:60])
+                    fo = Folder(leaf, generic={'SIZE': SZ})
+                    try:
+                        hit = [p for p in paths if not p.panicked and path_holds(fo, p)]
+                        if len(hit) != 1:
+                            bad = 'SIZE=%d in-use=%d indirect=%d: %d feasible paths' % (SZ, used, ind, len(hit))
+                            break
+                        got = fo.ev(hit[0].ret)
+                    except Unfoldable as e:
+                        bad = 'unfoldable: %s' % e
+                        break
+                    rows += 1
+                    if (got == 0) != (used == SZ):
+                        bad = 'SIZE=%d, %d descriptors in use, indirect=%d: reports %d free descriptors' % (SZ, used, ind, got)
+                        break
+                    if not ind and got != SZ - used:
+                        bad = 'SIZE=%d, %d descriptors in use (no indirect descriptors): reports %d free, expected %d' % (SZ, used, got, SZ - used)
+                        break
+                if bad:
+                    break
+            if bad:
+                break
+        R.tables += rows
+        if bad and bad.startswith('unfoldable'):
+            R.abstain('E7', b['id'], bad, where)
+            continue
+        R.check(bad is None, 'E7', '%s:free-count' % b['id'], where, 'reports 0 iff full; SIZE - in-use without indirect descriptors (%d rows)' % rows, 'free-descriptor query: %s' % bad)
+    R.count('free_queries', n)
 
 
 def natural_loops(sg):
